@@ -1298,117 +1298,241 @@ impl<'a, F: Function + MathFunction + Clone + Cross> World<'a, F> {
                 boxes.push(b.clone());
                 b
             };
-            let iv = |i: Option<usize>| {
-                i.map(|i| Interval::new(bx[i].0, bx[i].1))
-                    .unwrap_or(Interval::new(0.0, 0.0))
-            };
-            let (ivx, ivy, ivz) = (iv(ix), iv(iy), iv(iz));
-            let mut sv_i = ShapeVars::<Interval>::new();
-            for (v, i) in &varmap {
-                if let Var::V(vi) = v {
-                    sv_i.insert(*vi, Interval::new(bx[*i].0, bx[*i].1));
-                }
-            }
-            let pts = self.domain_points(&Domain::Box(bx.clone()), nvars);
-            let cols: Vec<Vec<f32>> = (0..nvars)
-                .map(|i| pts.iter().map(|p| p[i]).collect())
+            // level 1: the drawn box; level 2 (half of the steps): a sub-box
+            // traced on the child handle and simplified again, as the tile
+            // recursion of the renderers does
+            let nested = self.ch(|c| c.flag("rh_nested"));
+            let sub: Vec<(f32, f32)> = bx
+                .iter()
+                .map(|(lo, hi)| {
+                    let (a, b) = self.ch(|c| {
+                        match c.choose("rh_sub", 4) {
+                            0 => (0.0, 0.5),
+                            1 => (0.5, 1.0),
+                            2 => (0.25, 0.75),
+                            _ => (0.0, 1.0),
+                        }
+                    });
+                    let w = hi - lo;
+                    ((lo + w * a).clamp(*lo, *hi), (lo + w * b).clamp(*lo, *hi))
+                })
                 .collect();
-            let col = |i: Option<usize>| {
-                i.map(|i| cols[i].clone())
-                    .unwrap_or(vec![0.0; pts.len()])
-            };
-            let (xs, ys, zs) = (col(ix), col(iy), col(iz));
-            let mut sv_f = ShapeVars::<Vec<f32>>::new();
-            for (v, i) in &varmap {
-                if let Var::V(vi) = v {
-                    sv_f.insert(*vi, cols[*i].clone());
+            struct Level {
+                ivx: Interval,
+                ivy: Interval,
+                ivz: Interval,
+                sv_i: ShapeVars<Interval>,
+                pts: Vec<Vec<f32>>,
+                cols: Vec<Vec<f32>>,
+                xs: Vec<f32>,
+                ys: Vec<f32>,
+                zs: Vec<f32>,
+                sv_f: ShapeVars<Vec<f32>>,
+            }
+            let mut levels: Vec<Level> = vec![];
+            for (li, bxl) in [&bx, &sub].into_iter().enumerate() {
+                if li == 1 && !nested {
+                    break;
                 }
+                let iv = |i: Option<usize>| {
+                    i.map(|i| Interval::new(bxl[i].0, bxl[i].1))
+                        .unwrap_or(Interval::new(0.0, 0.0))
+                };
+                let mut sv_i = ShapeVars::<Interval>::new();
+                for (v, i) in &varmap {
+                    if let Var::V(vi) = v {
+                        sv_i.insert(*vi, Interval::new(bxl[*i].0, bxl[*i].1));
+                    }
+                }
+                let pts = self.domain_points(&Domain::Box(bxl.clone()), nvars);
+                let cols: Vec<Vec<f32>> = (0..nvars)
+                    .map(|i| pts.iter().map(|p| p[i]).collect())
+                    .collect();
+                let col = |i: Option<usize>| {
+                    i.map(|i| cols[i].clone())
+                        .unwrap_or(vec![0.0; pts.len()])
+                };
+                let mut sv_f = ShapeVars::<Vec<f32>>::new();
+                for (v, i) in &varmap {
+                    if let Var::V(vi) = v {
+                        sv_f.insert(*vi, cols[*i].clone());
+                    }
+                }
+                levels.push(Level {
+                    ivx: iv(ix),
+                    ivy: iv(iy),
+                    ivz: iv(iz),
+                    sv_i,
+                    xs: col(ix),
+                    ys: col(iy),
+                    zs: col(iz),
+                    sv_f,
+                    pts,
+                    cols,
+                });
+            }
+            // the handle-level calls, on whatever objects are passed in
+            #[allow(clippy::too_many_arguments)]
+            fn walk<F: Function>(
+                rh: &mut RenderHandle<F>,
+                levels: &[Level],
+                shape_st: &mut Vec<F::Storage>,
+                tape_st: &mut Vec<F::TapeStorage>,
+                ws: &mut F::Workspace,
+                sie: &mut ShapeTracingEval<F::IntervalEval>,
+                sfe: &mut ShapeBulkEval<F::FloatSliceEval>,
+                out: &mut Vec<Res>,
+            ) {
+                let Some((l, rest)) = levels.split_first() else {
+                    return;
+                };
+                let tr = {
+                    let it = rh.i_tape(tape_st);
+                    let (_v, tr) = sie
+                        .eval_raw(it, l.ivx, l.ivy, l.ivz, None, &l.sv_i)
+                        .expect("vars are bound");
+                    tr.cloned()
+                };
+                let Some(tr) = tr else {
+                    return;
+                };
+                let child = rh.simplify(&tr, ws, shape_st, tape_st);
+                {
+                    let ft = child.f_tape(tape_st);
+                    let v = sfe
+                        .eval_raw(
+                            ft,
+                            &l.xs,
+                            &l.ys,
+                            &l.zs,
+                            None,
+                            ShapeBulkEval::<F::FloatSliceEval>::var_array(
+                                &l.sv_f,
+                            ),
+                        )
+                        .expect("vars are bound");
+                    out.push(Res::Float(vec![
+                        v.iter().map(|v| canon(*v)).collect(),
+                    ]));
+                }
+                walk::<F>(child, rest, shape_st, tape_st, ws, sie, sfe, out);
             }
             let wk = &mut self.workers[w];
             let all_fresh = self.all_fresh;
             let rh = &mut rh;
             let r = rt::catch(|| {
-                let mut ss = vec![];
-                let mut ts = vec![];
-                let mut nws = F::Workspace::default();
-                let mut nsie = ShapeTracingEval::<F::IntervalEval>::default();
-                let mut nsfe = ShapeBulkEval::<F::FloatSliceEval>::default();
-                let (shape_st, tape_st, ws, sie, sfe) = if all_fresh {
-                    (&mut ss, &mut ts, &mut nws, &mut nsie, &mut nsfe)
+                let mut out = vec![];
+                if all_fresh {
+                    walk::<F>(
+                        rh,
+                        &levels,
+                        &mut vec![],
+                        &mut vec![],
+                        &mut F::Workspace::default(),
+                        &mut Default::default(),
+                        &mut Default::default(),
+                        &mut out,
+                    );
                 } else {
-                    (
+                    walk::<F>(
+                        rh,
+                        &levels,
                         &mut wk.fn_stash,
                         &mut wk.tape_stash,
                         &mut wk.ws,
                         &mut wk.sie,
                         &mut wk.sfe,
-                    )
-                };
-                let tr = {
-                    let it = rh.i_tape(tape_st);
-                    let (_v, tr) = sie
-                        .eval_raw(it, ivx, ivy, ivz, None, &sv_i)
-                        .expect("vars are bound");
-                    tr.cloned()
-                };
-                let tr = tr?;
-                let child = rh.simplify(&tr, ws, shape_st, tape_st);
-                let ft = child.f_tape(tape_st);
-                let out = sfe
-                    .eval_raw(
-                        ft,
-                        &xs,
-                        &ys,
-                        &zs,
-                        None,
-                        ShapeBulkEval::<F::FloatSliceEval>::var_array(&sv_f),
-                    )
-                    .expect("vars are bound");
-                Some(Res::Float(vec![
-                    out.iter().map(|v| canon(*v)).collect(),
-                ]))
+                        &mut out,
+                    );
+                }
+                out
             });
+            // parent values at the sample points of each level
             let c = rt::catch(|| {
                 let ft = parent_clean.float_slice_tape(Default::default());
-                ev_float::<F>(&mut F::new_float_slice_eval(), &ft, &cols)
+                levels
+                    .iter()
+                    .map(|l| {
+                        ev_float::<F>(
+                            &mut F::new_float_slice_eval(),
+                            &ft,
+                            &l.cols,
+                        )
+                    })
+                    .collect::<Vec<Res>>()
             });
+            // the same handle-level calls with fresh objects only: a panic
+            // that also happens here is not a question of reuse
+            let fresh = rt::catch(|| {
+                let mut frh = RenderHandle::new(Shape::new_raw(
+                    parent_clean.clone(),
+                ));
+                let mut out = vec![];
+                walk::<F>(
+                    &mut frh,
+                    &levels,
+                    &mut vec![],
+                    &mut vec![],
+                    &mut F::Workspace::default(),
+                    &mut Default::default(),
+                    &mut Default::default(),
+                    &mut out,
+                );
+            });
+            if fresh.is_err() {
+                self.rep.count("other.clean_panic", 1);
+                self.st.borrow_mut().log("clean_panic", 1, 0);
+                if r.is_err() {
+                    // poisoned by the same panic: the handle is abandoned
+                    self.workers[w].ws = Default::default();
+                    return;
+                }
+            }
+            if nested {
+                self.rep.count("op.render_handle_nested_step", 1);
+            }
             match (r, c) {
-                (Ok(Some(d)), Ok(c)) => {
-                    self.rep.evaluations += 1;
-                    self.st.borrow_mut().log_digest("rh", d.digest());
+                (Ok(ds), Ok(cs)) => {
                     let proto = self.slots[s].proto;
-                    let ok: Vec<bool> = pts
-                        .iter()
-                        .map(|p| self.nan_free(proto, &parent_clean, p))
-                        .collect();
-                    let keep = |r: &Res| -> Vec<u32> {
-                        match r {
-                            Res::Float(rows) if rows.len() == 1 => rows[0]
-                                .iter()
-                                .zip(&ok)
-                                .filter(|(_, k)| **k)
-                                .map(|(v, _)| *v)
-                                .collect(),
-                            _ => vec![0xdead],
+                    for (li, d) in ds.iter().enumerate() {
+                        let c = &cs[li];
+                        let pts = &levels[li].pts;
+                        let bx = if li == 0 { &bx } else { &sub };
+                        self.rep.evaluations += 1;
+                        self.st.borrow_mut().log_digest("rh", d.digest());
+                        let ok: Vec<bool> = pts
+                            .iter()
+                            .map(|p| self.nan_free(proto, &parent_clean, p))
+                            .collect();
+                        let keep = |r: &Res| -> Vec<u32> {
+                            match r {
+                                Res::Float(rows) if rows.len() == 1 => rows[0]
+                                    .iter()
+                                    .zip(&ok)
+                                    .filter(|(_, k)| **k)
+                                    .map(|(v, _)| *v)
+                                    .collect(),
+                                _ => vec![0xdead],
+                            }
+                        };
+                        if keep(d) != keep(c) {
+                            // the cached/recycled handle returned a function
+                            // that disagrees with the parent on the traced box
+                            let msg = format!(
+                                "render handle level {li} child {d:?} vs parent {c:?} on box {bx:?}"
+                            );
+                            self.violate04(
+                                "render_handle_child_differs_on_traced_box",
+                                msg.clone(),
+                            );
+                            self.violate10(
+                                "render_handle_child_differs_on_traced_box",
+                                msg,
+                            );
+                            break;
                         }
-                    };
-                    if keep(&d) != keep(&c) {
-                        // the cached/recycled handle returned a function that
-                        // disagrees with the parent on the traced box
-                        let msg = format!(
-                            "render handle child {d:?} vs parent {c:?} on box {bx:?}"
-                        );
-                        self.violate04(
-                            "render_handle_child_differs_on_traced_box",
-                            msg.clone(),
-                        );
-                        self.violate10(
-                            "render_handle_child_differs_on_traced_box",
-                            msg,
-                        );
                     }
                 }
-                (Ok(None), _) => (),
                 (Err(p), Ok(_)) => {
                     self.violate10("render_handle_panics", p.clone());
                     self.violate04("render_handle_panics", p);
